@@ -14,6 +14,14 @@ as broken):
                `x is None` / `is not None`, and / or / not with Python truthiness,
                conditional expressions, calls to: abs, max, min, float, int (on Z),
                `s.lower()`, other functions translated in the same module.
+               numpy/pandas code read per element: `v[mask]`, `v[mask] op= e`, `tbl[mask, 'col'] = e`, `.values`,
+               `.round()`, `.clip(a, b)`, `.abs()`, `.astype('int')`, `.isnull()`, `.fillna(v)`, `&`, `|`, `~`,
+               `np.log2` / `np.exp2` (oracles), NaN-propagating arithmetic on optional numbers
+  parameters : (key, type[, coq name]) where key is a Python name, a dotted attribute or ANY source expression the
+               function reads as an opaque input (e.g. "cnarr.chr_x_filter(diploid_parx_genome).values",
+               "outarr['baf']"); `fragment={'first': prefix, 'last': prefix}` translates a contiguous statement range
+               (found in whichever nested block holds it, after desugaring) and `returns=[exprs]` names its results
+               (ret is then a list of types = a tuple)
   types      : Z, Q, B (bool), S (string), OQ (option Q), OZ (option Z); parameter
                and result types are declared in the spec (tools/fnspecs/*.py); an
                `if p and ...:` / `if p is not None and ...:` on an option-typed
@@ -62,6 +70,9 @@ class FnTranslator:
     # ---- helpers
     def new(self, base):
         self.fresh += 1
+        base = ''.join(c if (c.isalnum() or c == '_') else '_' for c in base).strip('_') or 'v'
+        if base[0].isdigit():
+            base = 'v' + base
         return '%s_%d' % (base, self.fresh)
 
     def toQ(self, tv):
@@ -77,6 +88,27 @@ class FnTranslator:
         if a[1] == 'Z' and b[1] == 'Z':
             return a[0], b[0], 'Z'
         return self.toQ(a), self.toQ(b), 'Q'
+
+    def lift(self, vals, build):
+        """NaN propagation: if some operand is an optional number, the operation is applied under `Some` and a missing
+        operand makes the result missing.  `build` maps the unwrapped (term, type) operands to a (term, type)."""
+        if not any(v[1] in ('OQ', 'OZ') for v in vals):
+            return build(vals)
+        inner, binds = [], []
+        for v in vals:
+            if v[1] in ('OQ', 'OZ'):
+                nm = self.new('o')
+                binds.append((v[0], nm))
+                inner.append((nm, 'Q' if v[1] == 'OQ' else 'Z'))
+            else:
+                inner.append(v)
+        t, ty = build(inner)
+        if ty not in ('Q', 'Z'):
+            raise Refuse('%s: operation on a missing value that does not yield a number' % self.rel)
+        term = '(Some %s)' % t
+        for src, nm in reversed(binds):
+            term = '(match %s with Some %s => %s | None => None end)' % (src, nm, term)
+        return (term, 'O' + ty)
 
     def truthy(self, tv):
         t, ty = tv
@@ -96,6 +128,13 @@ class FnTranslator:
 
     # ---- expressions
     def expr(self, n, env):
+        if not isinstance(n, (ast.Constant, ast.Name)):
+            try:
+                key = ast.unparse(n)
+            except Exception:
+                key = None
+            if key is not None and key in env:
+                return env[key]
         if isinstance(n, ast.Constant):
             v = n.value
             if v is True or v is False:
@@ -116,14 +155,16 @@ class FnTranslator:
             if key in env:
                 return env[key]
             raise Refuse('%s: unknown attribute %s' % (self.rel, key))
-        if isinstance(n, ast.Subscript) and isinstance(n.value, ast.Name) and isinstance(n.slice, ast.Name):
+        if isinstance(n, ast.Subscript) and isinstance(n.value, ast.Name) and not isinstance(n.slice, (ast.Constant, ast.Tuple, ast.Slice)):
             # elementwise view of numpy code: v[mask] is v itself, read under the guard `mask`
             # (only legal where the result is consumed under the same mask; checked at the use site)
             v, m = self.expr(n.value, env), self.expr(n.slice, env)
             if m[1] != 'B':
                 raise Refuse('%s: subscript by a non-mask' % self.rel)
-            self.mask_uses.append((n.slice.id, v[0]))
+            self.mask_uses.append((ast.unparse(n.slice), v[0]))
             return v
+        if isinstance(n, ast.Attribute) and n.attr == 'values':
+            return self.expr(n.value, env)             # ndarray view of a column: the same element
         if isinstance(n, ast.UnaryOp):
             if isinstance(n.op, ast.USub):
                 a = self.expr(n.operand, env)
@@ -132,6 +173,11 @@ class FnTranslator:
                 return ('(Qopp %s)' % self.toQ(a), 'Q')
             if isinstance(n.op, ast.Not):
                 return ('(negb %s)' % self.truthy(self.expr(n.operand, env)), 'B')
+            if isinstance(n.op, ast.Invert):
+                a = self.expr(n.operand, env)
+                if a[1] == 'B':
+                    return ('(negb %s)' % a[0], 'B')
+                raise Refuse('~ on a non-boolean')
             raise Refuse('unary operator %s' % type(n.op).__name__)
         if isinstance(n, ast.BinOp):
             if isinstance(n.op, ast.Pow):
@@ -146,15 +192,21 @@ class FnTranslator:
                     return ('(let %s := %s in Qmult %s %s)' % (nm, self.toQ(a), nm, nm), 'Q')
                 raise Refuse('%s: only 2 ** e and e ** 2 are supported' % self.rel)
             a, b = self.expr(n.left, env), self.expr(n.right, env)
+            if isinstance(n.op, (ast.BitAnd, ast.BitOr)):
+                if a[1] == 'B' and b[1] == 'B':
+                    return ('(%s %s %s)' % ('andb' if isinstance(n.op, ast.BitAnd) else 'orb', a[0], b[0]), 'B')
+                raise Refuse('& / | on non-booleans')
             if isinstance(n.op, (ast.Add, ast.Sub, ast.Mult)):
-                x, y, ty = self.num2(a, b)
-                if ty == 'Z':
-                    op = {ast.Add: '+', ast.Sub: '-', ast.Mult: '*'}[type(n.op)]
-                    return ('(%s %s %s)' % (x, op, y), 'Z')
-                f = {ast.Add: 'Qplus', ast.Sub: 'Qminus', ast.Mult: 'Qmult'}[type(n.op)]
-                return ('(%s %s %s)' % (f, x, y), 'Q')
+                def arith(vs):
+                    x, y, ty = self.num2(vs[0], vs[1])
+                    if ty == 'Z':
+                        op = {ast.Add: '+', ast.Sub: '-', ast.Mult: '*'}[type(n.op)]
+                        return ('(%s %s %s)' % (x, op, y), 'Z')
+                    f = {ast.Add: 'Qplus', ast.Sub: 'Qminus', ast.Mult: 'Qmult'}[type(n.op)]
+                    return ('(%s %s %s)' % (f, x, y), 'Q')
+                return self.lift([a, b], arith)
             if isinstance(n.op, ast.Div):
-                return ('(Qdiv %s %s)' % (self.toQ(a), self.toQ(b)), 'Q')
+                return self.lift([a, b], lambda vs: ('(Qdiv %s %s)' % (self.toQ(vs[0]), self.toQ(vs[1])), 'Q'))
             if isinstance(n.op, ast.FloorDiv):
                 if a[1] == 'Z' and b[1] == 'Z':
                     return ('(Z.div %s %s)' % (a[0], b[0]), 'Z')
@@ -257,6 +309,12 @@ class FnTranslator:
         elif isinstance(f, ast.Attribute) and isinstance(f.value, ast.Name) and f.value.id in ('np', 'numpy', 'math'):
             # library functions with an exact rational meaning
             args = [self.expr(a, env) for a in n.args]
+            if f.attr == 'log2' and len(args) == 1:
+                self.oracles.add('log2')
+                return ('(log2 %s)' % self.toQ(args[0]), 'Q')
+            if f.attr == 'exp2' and len(args) == 1:
+                self.oracles.add('exp2')
+                return ('(exp2 %s)' % self.toQ(args[0]), 'Q')
             if f.attr in ('round', 'rint', 'around') and len(args) == 1:      # numpy: round half to even, float result
                 return ('(inject_Z (round_half_even %s))' % self.toQ(args[0]), 'Q')
             if f.attr == 'ceil' and len(args) == 1:
@@ -272,17 +330,38 @@ class FnTranslator:
             if f.attr == 'clip' and len(args) == 3:
                 return self.clip(args[0], args[1], args[2])
             raise Refuse('%s: unsupported library call %s.%s' % (self.rel, f.value.id, f.attr))
+        elif isinstance(f, ast.Attribute) and f.attr in ('isnull', 'isna', 'notnull', 'notna') and not n.args:
+            v = self.expr(f.value, env)
+            if v[1] in ('OQ', 'OZ'):
+                t = '(match %s with Some _ => false | None => true end)' % v[0]
+            else:
+                t = 'false'
+            return (t if f.attr in ('isnull', 'isna') else '(negb %s)' % t, 'B')
+        elif isinstance(f, ast.Attribute) and f.attr == 'astype' and len(n.args) == 1:
+            v = self.expr(f.value, env)
+            a = n.args[0]
+            kind = a.value if isinstance(a, ast.Constant) else (a.id if isinstance(a, ast.Name) else None)
+            if kind in ('int', 'int64', int):
+                if v[1] == 'Z':
+                    return v
+                q = self.toQ(v)
+                t = self.new('tr')
+                return ('(let %s := %s in if Qle_bool 0 %s then floorQ %s else ceilQ %s)' % (t, q, t, t, t), 'Z')     # truncation
+            if kind in ('float', 'float64'):
+                return (self.toQ(v), 'Q')
+            raise Refuse('%s: astype(%r)' % (self.rel, kind))
         elif isinstance(f, ast.Attribute) and f.attr in ('round', 'abs', 'clip', 'fillna') and not (
                 isinstance(f.value, ast.Name) and f.value.id in ('np', 'numpy', 'math')):
             # methods of a numeric value (numpy / pandas scalars and, read elementwise, arrays)
             v = self.expr(f.value, env)
             args = [self.expr(a, env) for a in n.args]
             if f.attr == 'round' and not args:
-                return ('(inject_Z (round_half_even %s))' % self.toQ(v), 'Q')
+                return self.lift([v], lambda vs: ('(inject_Z (round_half_even %s))' % self.toQ(vs[0]), 'Q'))
             if f.attr == 'abs' and not args:
-                return ('(Qabs %s)' % self.toQ(v), 'Q') if v[1] != 'Z' else ('(Z.abs %s)' % v[0], 'Z')
+                return self.lift([v], lambda vs: ('(Qabs %s)' % self.toQ(vs[0]), 'Q') if vs[0][1] != 'Z'
+                                 else ('(Z.abs %s)' % vs[0][0], 'Z'))
             if f.attr == 'clip' and len(args) == 2:
-                return self.clip(v, args[0], args[1])
+                return self.lift([v, args[0], args[1]], lambda vs: self.clip(vs[0], vs[1], vs[2]))
             if f.attr == 'fillna' and len(args) == 1 and v[1] in ('OQ', 'OZ'):
                 inner = self.new('fill')
                 if v[1] == 'OQ':
@@ -310,7 +389,8 @@ class FnTranslator:
             if f.id == 'int' and len(args) == 1 and args[0][1] == 'Q':
                 # Python int(): truncation toward zero
                 q = args[0][0]
-                return ('(if Qle_bool 0 %s then floorQ %s else ceilQ %s)' % (q, q, q), 'Z')
+                t = self.new('tr')
+                return ('(let %s := %s in if Qle_bool 0 %s then floorQ %s else ceilQ %s)' % (t, q, t, t, t), 'Z')
             if f.id == 'round' and len(args) == 1:
                 return ('(round_half_even %s)' % self.toQ(args[0]), 'Z')      # Python round(): half to even, int result
             if f.id in self.specs:
@@ -389,6 +469,67 @@ class FnTranslator:
         return self.truthy(self.expr(test, env))
 
     # ---- statements
+    @staticmethod
+    def is_nan_const(v):
+        if isinstance(v, ast.Constant) and v.value is None:
+            return True
+        if isinstance(v, ast.Attribute) and v.attr in ('nan', 'NaN', 'NAN') and isinstance(v.value, ast.Name):
+            return True
+        return False
+
+    def desugar(self, stmts):
+        """x op= e  ->  x = x op e ;   v[m] op= e  ->  v = (v op e if m else v) ;   v[m] = e -> v = (e if m else v);
+        tbl[m, 'col'] = e  ->  tbl['col'] = (e if m else tbl['col']) ; recursively inside if-statements.
+        Assignment targets that are subscripts by a string constant (tbl['col']) are variables named by their source."""
+        out = []
+        for s in stmts:
+            if isinstance(s, ast.If):
+                s = ast.If(test=s.test, body=self.desugar(s.body), orelse=self.desugar(s.orelse))
+                out.append(s)
+                continue
+            tgt = val = None
+            if isinstance(s, ast.AugAssign):
+                tgt, val = s.target, ast.BinOp(left=self.as_load(s.target), op=s.op, right=s.value)
+            elif isinstance(s, ast.Assign) and len(s.targets) == 1:
+                tgt, val = s.targets[0], s.value
+            if tgt is None or isinstance(tgt, ast.Name):
+                if isinstance(s, ast.AugAssign):
+                    s = ast.Assign(targets=[tgt], value=val)
+                out.append(s)
+                continue
+            if isinstance(tgt, ast.Subscript):
+                sl = tgt.slice
+                if isinstance(sl, ast.Constant) and isinstance(sl.value, str):
+                    out.append(ast.Assign(targets=[tgt], value=val))          # tbl['col'] = e : variable tbl['col']
+                    continue
+                if isinstance(sl, ast.Tuple) and len(sl.elts) == 2 and isinstance(sl.elts[1], ast.Constant) \
+                        and isinstance(sl.elts[1].value, str):
+                    col = ast.Subscript(value=tgt.value, slice=sl.elts[1], ctx=ast.Load())
+                    mask = sl.elts[0]
+                else:
+                    col, mask = self.as_load(tgt.value), sl
+                if isinstance(s, ast.AugAssign):
+                    val = ast.BinOp(left=col, op=s.op, right=s.value)
+                out.append(ast.Assign(targets=[col], value=ast.IfExp(test=mask, body=val, orelse=col)))
+                continue
+            out.append(s)
+        for x in out:
+            if not hasattr(x, 'lineno'):
+                x.lineno, x.col_offset = 0, 0
+            ast.fix_missing_locations(x)
+        return out
+
+    @staticmethod
+    def as_load(n):
+        return ast.parse(ast.unparse(n), mode='eval').body
+
+    def target_key(self, t):
+        if isinstance(t, ast.Name):
+            return t.id
+        if isinstance(t, ast.Subscript) and isinstance(t.slice, ast.Constant) and isinstance(t.slice.value, str):
+            return ast.unparse(t)
+        return None
+
     def block(self, stmts, env, ret):
         """translate a statement list every path of which returns -> Coq term of type ret"""
         if not stmts:
@@ -401,14 +542,19 @@ class FnTranslator:
         if isinstance(s, ast.Return):
             if s.value is None:
                 raise Refuse('bare return')
+            if not isinstance(ret, str):
+                if not isinstance(s.value, ast.Tuple) or len(s.value.elts) != len(ret):
+                    raise Refuse('%s: a %d-tuple is expected as the result' % (self.rel, len(ret)))
+                return '(' + ', '.join(self.coerce(self.expr(e, env), t) for e, t in zip(s.value.elts, ret)) + ')'
             return self.coerce(self.expr(s.value, env), ret)
         if isinstance(s, ast.Assign):
-            if len(s.targets) != 1 or not isinstance(s.targets[0], ast.Name):
-                raise Refuse('%s: only `name = expr` assignments' % self.rel)
-            v = self.expr(s.value, env)
-            nm = self.new(s.targets[0].id)
+            key = self.target_key(s.targets[0]) if len(s.targets) == 1 else None
+            if key is None:
+                raise Refuse('%s: only `name = expr` / `table[\'column\'] = expr` assignments' % self.rel)
+            v = self.value_maybe_nan(s.value, env)
+            nm = self.new(''.join(c if c.isalnum() else '_' for c in key).strip('_'))
             env2 = dict(env)
-            env2[s.targets[0].id] = (nm, v[1])
+            env2[key] = (nm, v[1])
             return '(let %s := %s in\n   %s)' % (nm, v[0], self.block(rest, env2, ret))
         if isinstance(s, ast.AugAssign) and isinstance(s.target, ast.Subscript) \
                 and isinstance(s.target.value, ast.Name) and isinstance(s.target.slice, ast.Name) \
@@ -509,6 +655,27 @@ class FnTranslator:
     def is_raise_guard(self, s):
         return (not s.orelse) and len(s.body) == 1 and isinstance(s.body[0], ast.Raise)
 
+    def value_maybe_nan(self, n, env):
+        """like expr, but an IfExp one of whose branches is NaN/None yields an option value"""
+        if isinstance(n, ast.IfExp) and (self.is_nan_const(n.body) or self.is_nan_const(n.orelse)):
+            c = self.cond(n.test, env)
+            def opt(b):
+                if self.is_nan_const(b):
+                    return None
+                return self.expr(b, env)
+            a, b = opt(n.body), opt(n.orelse)
+            other = a or b
+            if other is None:
+                raise Refuse('both branches NaN')
+            if other[1] in ('OQ', 'OZ'):
+                oty, wrap = other[1], (lambda t: t)
+            else:
+                oty, wrap = ('OZ' if other[1] == 'Z' else 'OQ'), (lambda t: '(Some %s)' % t)
+            ta = 'None' if a is None else wrap(a[0] if oty[1] == a[1] or a[1] in ('OQ', 'OZ') else self.toQ(a))
+            tb = 'None' if b is None else wrap(b[0] if oty[1] == b[1] or b[1] in ('OQ', 'OZ') else self.toQ(b))
+            return ('(if %s then %s else %s)' % (c, ta, tb), oty)
+        return self.expr(n, env)
+
     def always_returns(self, stmts):
         for s in stmts:
             if isinstance(s, ast.Return):
@@ -522,9 +689,9 @@ class FnTranslator:
         for s in stmts:
             if isinstance(s, ast.Pass) or (isinstance(s, ast.Expr) and isinstance(s.value, ast.Constant)):
                 continue
-            if isinstance(s, ast.Assign) and len(s.targets) == 1 and isinstance(s.targets[0], ast.Name) \
-                    and s.targets[0].id not in out:
-                out[s.targets[0].id] = s.value
+            key = self.target_key(s.targets[0]) if isinstance(s, ast.Assign) and len(s.targets) == 1 else None
+            if key is not None and key not in out:
+                out[key] = s.value
             else:
                 return None
         return out
@@ -537,13 +704,15 @@ class FnTranslator:
         names = [a.arg for a in args.args]
         want = sp.get('py_params')
         if want is None:
-            want = [p[0] for p in sp['params'] if '.' not in p[0] and p[0] not in sp.get('closure', [])]
+            want = [p[0] for p in sp['params'] if p[0].isidentifier() and p[0] not in sp.get('closure', [])]
         if names != want:
             raise Refuse('%s.%s: parameters are now %s, the spec expects %s' % (self.rel, sp['name'], names, want))
         # defaults: literal defaults are recorded so that calls omitting them can be translated
         sp['defaults'] = {}
         for a, d in zip(args.args[len(args.args) - len(args.defaults):], args.defaults):
-            pt = dict(sp['params'])[a.arg]
+            pt = {q[0]: q[1] for q in sp['params']}.get(a.arg)
+            if pt is None:
+                continue                      # a Python parameter that is not read as a typed scalar
             if isinstance(d, ast.Constant) and d.value is None and pt in ('OQ', 'OZ'):
                 sp['defaults'][a.arg] = 'None'
             else:
@@ -551,12 +720,55 @@ class FnTranslator:
                     sp['defaults'][a.arg] = self.coerce(self.expr(d, {}), pt)
                 except Refuse:
                     pass
-        env = {p: (p.replace('.', '_'), t) for p, t in sp['params']}
+        # a parameter is (key, type[, coq name]); the key is a Python name, a dotted attribute, or ANY source
+        # expression (e.g. "cnarr.chr_x_filter(diploid_parx_genome).values", "outarr['baf']") that the function
+        # reads as an opaque input of that type
+        def norm(k):
+            try:
+                return ast.unparse(ast.parse(k, mode='eval').body)
+            except SyntaxError:
+                return k
+        plist = []
+        for p in sp['params']:
+            key, ty = p[0], p[1]
+            coq = p[2] if len(p) > 2 else ''.join(c if (c.isalnum() or c == '_') else '_' for c in key).strip('_')
+            plist.append((norm(key), ty, coq))
+        env = {k: (c, t) for k, t, c in plist}
         self.guards = []
-        body = self.block(fnode.body, env, sp['ret'])
-        params = ' '.join('(%s : %s)' % (p.replace('.', '_'), COQTY[t]) for p, t in sp['params'])
+        stmts = self.desugar(fnode.body)
+        frag = sp.get('fragment')
+        if frag:
+            stmts = self.find_fragment(stmts, frag['first'], frag['last'])
+            if stmts is None:
+                raise Refuse('%s.%s: fragment %r .. %r not found' % (self.rel, sp['name'], frag['first'], frag['last']))
+        rets = sp.get('returns')
+        if rets:
+            tup = ast.Tuple(elts=[ast.parse(r, mode='eval').body for r in rets], ctx=ast.Load()) if len(rets) > 1 \
+                else ast.parse(rets[0], mode='eval').body
+            stmts = stmts + [ast.Return(value=tup)]
+        body = self.block(stmts, env, sp['ret'])
+        params = ' '.join('(%s : %s)' % (c, COQTY[t]) for k, t, c in plist)
         pre = ''.join('(* error path outside the translation: raises when  %s *)\n' % g for g in self.guards)
-        return pre + 'Definition %s %s : %s :=\n  %s.' % (sp['coq'], params, COQTY[sp['ret']], body)
+        rty = sp['ret']
+        rcoq = COQTY[rty] if isinstance(rty, str) else '(' + ' * '.join(COQTY[t] for t in rty) + ')%type'
+        return pre + 'Definition %s %s : %s :=\n  %s.' % (sp['coq'], params, rcoq, body)
+
+    def find_fragment(self, stmts, first, last):
+        """the contiguous statements, in whichever (nested) statement list holds them, from the one whose source
+        starts with `first` to the one whose source starts with `last`"""
+        srcs = [ast.unparse(x) for x in stmts]
+        for i, a in enumerate(srcs):
+            if a.startswith(first):
+                for j in range(i, len(srcs)):
+                    if srcs[j].startswith(last):
+                        return stmts[i:j + 1]
+        for x in stmts:
+            for sub in (getattr(x, 'body', None), getattr(x, 'orelse', None)):
+                if isinstance(sub, list) and sub and isinstance(sub[0], ast.stmt):
+                    r = self.find_fragment(sub, first, last)
+                    if r is not None:
+                        return r
+        return None
 
 
 def find_func(tree, qual):
